@@ -230,6 +230,10 @@ func BuildRoot(w *World, root string, lib *OpLib) {
 		// STRICT SAFETY FACTORS: R1 after governance doubled the safety factor of both position modules (opens that
 		// were fine under the defaults are now refused by the gates)
 		prefix = []string{"perp_open_long_t1", "perp_open_short_t2", "llp_open_t1_x3", "swap_in_p1_usdc_atom_L", "swap_in_p2_elys_usdc_L", "gap_1d", "mc_claim_lp1", "commit_eden_lp1", "vest_eden_lp1", "stake_elys_lp1", "cfgauto_leveragelp.MsgUpdateParams.Params.SafetyFactor=x2", "cfgauto_perpetual.MsgUpdateParams.Params.SafetyFactor=x2"}
+	case "R22":
+		// ALIASED ASSETS: an outsider registered second asset-profile entries naming each fixture asset (18 decimals,
+		// base denoms that sort first), and the ELYS price of the constant-product pool crashed below 0.5 USDC
+		prefix = []string{"perp_open_long_t1", "perp_open_short_t2", "llp_open_t1_x3", "swap_in_p1_usdc_atom_L", "swap_in_p2_elys_usdc_L", "gap_1d", "mc_claim_lp1", "commit_eden_lp1", "vest_eden_lp1", "stake_elys_lp1", "ap_alias_entry_uusdc_18dec_t3", "ap_alias_entry_uatom_18dec_t3", "ap_alias_entry_uelys_18dec_t3", "swap_in_p2_elys_usdc_XXL"}
 	case "R20":
 		// MANY BLOCKS: R3 (leveraged-LP sweep off, so nothing touches the open positions' debts) followed by
 		// 1000 ordinary blocks — counters, indices and "last touched at height" fields are a thousand blocks old
